@@ -75,6 +75,27 @@ type HangInfo struct {
 	Sig     string   // signature: state@frame
 	Stack   string   // stack of the task goroutine (second dump)
 	Others  []string // non-idle library goroutines: "state@frame"
+	Dump    string   `json:"-"` // stacks of the non-idle library goroutines (second dump)
+}
+
+// LibStacks returns the stack text of the non-idle parked library goroutines.
+func LibStacks(gs []G, except int64) string {
+	var b strings.Builder
+	for _, g := range gs {
+		if g.ID == except {
+			continue
+		}
+		in := innermostLib(g)
+		if in == "" || idleLib(g) || !parked(g.State) {
+			continue
+		}
+		b.WriteString(g.Text)
+		b.WriteString("\n\n")
+		if b.Len() > 60000 {
+			break
+		}
+	}
+	return b.String()
 }
 
 var (
@@ -234,7 +255,7 @@ func Await(t *Task, w time.Duration) HangInfo {
 		return HangInfo{Verdict: Inconclusive, State: "goroutine not found in dump"}
 	}
 	f1, f2 := innermostLib(*g1), innermostLib(*g2)
-	hi := HangInfo{State: g2.State, Frame: f2, Stack: g2.Text, Others: LibSummary(d2, t.GID)}
+	hi := HangInfo{State: g2.State, Frame: f2, Stack: g2.Text, Others: LibSummary(d2, t.GID), Dump: LibStacks(d2, t.GID)}
 	if parked(g1.State) && parked(g2.State) && g1.State == g2.State && f1 == f2 && f2 != "" {
 		hi.Verdict = Hung
 		hi.Sig = g2.State + "@" + f2
